@@ -88,6 +88,13 @@ Theorem C10_counter :
 Proof. exact counter_sound. Qed.
 Print Assumptions C10_counter.
 
+(* and the checker raises no false alarm on a single counting statement: whatever it rejects
+   (one per call, one per chunk, none) gives the wrong total for some batch *)
+Theorem C10_counter_single_complete : forall e : ceff, counter_ok [e] = false ->
+  exists nchunks len c, counter_run nchunks len [e] c <> c + len.
+Proof. exact counter_single_complete. Qed.
+Print Assumptions C10_counter_single_complete.
+
 (* Model.batch_evaluate_log_likelihood / _log_prior / _log_prior_unit_hypercube: for every call table
    accepted by the checker (function, vectorisation flag and pool wrapper all belong to the SAME user
    function), each method returns that function applied to every point, in order *)
